@@ -17,14 +17,15 @@ RULE = ("seeded raw MIDI files written with mido: ticks_per_beat in {24,48,96,10
         "track-private pitch pools, 0-8 notes (sometimes a second channel taking over a pitch of the first inside one track) (or a long run of 300-1500 deltas for drift), note-off as note_off or note_on "
         "velocity 0, channels 0-15, time/key signatures on arbitrary tracks (distinct output ticks), x groupings (singletons, "
         "merged groups, omitted tracks, meta-only tracks, every meta target index). Stratum A: every note at least one output "
-        "tick long with gaps that survive rounding (must be entirely clean); stratum B: notes that collapse under rescaling "
-        "(known finding); stratum U: resolution 24, the tracks of a group share channel and pitches and carry unmatched note events. Checked: every note/signature event within half a tick of its exact rational position (no drift), "
+        "tick long with gaps that survive rounding (must be entirely clean); stratum B: notes that collapse to zero length under rescaling "
+        "(they contribute nothing; a note whose ends may round to the same tick on an exact tie may be absent; every other note must be in place — clean since fix 8e50f06); stratum U: resolution 24, the tracks of a group share channel and pitches and carry unmatched note events. Checked: every note/signature event within half a tick of its exact rational position (no drift), "
         "group sounding = union of its tracks, signatures of considered tracks on the meta sequence only, no notes from "
         "ungrouped tracks. Non-trivial: resolution != 24 and >= 2 tracks.")
 PLAN = {"quick": {"cases": 1200, "jobs": 4, "timeout": 600},
         "thorough": {"cases": 500000, "jobs": 16, "timeout": 3000, "budget_s": 360}}
 FLOORS = {"quick": {"c13.notes_position_checked": 3000, "c13.signature_position_checked": 500, "c13.long_track": 50,
-                    "c13.omitted_track": 150, "c13.merged_group": 200, "c13.non_dyadic_resolution": 250, "c13.union_groups_checked": 150},
+                    "c13.omitted_track": 150, "c13.merged_group": 200, "c13.non_dyadic_resolution": 250, "c13.union_groups_checked": 150,
+                    "c13.note_collapsing_to_zero_length": 300},
           "thorough": {"c13.notes_position_checked": 150000}}
 TPB = [24, 48, 96, 100, 120, 192, 384, 480, 960, 7, 32767]
 KEYS_MIDO = ["C", "G", "D", "A", "E", "B", "F#", "C#", "F", "Bb", "Eb", "Ab", "Db", "Gb", "Cb", "Am", "Em", "Dm", "F#m", "Ebm"]
@@ -153,14 +154,24 @@ def make_case(rng, i, tier):
 
 
 def classify(f, case):
-    """known finding: a note that collapses to zero length under rescaling flips its on/off order at the canonical sort;
-    the unclosed note-on then swallows the next note of that channel and pitch"""
-    if case.get("stratum") != "B":
-        return None
-    w = f.get("w")
-    if f.get("claim") == "group_notes" and isinstance(w, dict) and w.get("only_keys_with_collapsed_note"):
-        return "collapsed_note_swallows_next"
-    return None
+    return None   # no known finding left for C13 (the collapsed-note defect was repaired in 8e50f06)
+
+
+def _match(el, gl):
+    """el: expected notes [(A, B, velocity, may_collapse)] in onset order, A / B the sets of admissible ticks (two on an exact
+    .5 tie); gl: loaded notes [(on, off, velocity)] in order.  A note whose ends may round to the same tick may be absent."""
+    states = {0}
+    for (A, B, ve, optional) in el:
+        new = set()
+        for j in states:
+            if j < len(gl) and gl[j][0] in A and gl[j][1] in B and gl[j][2] == ve:
+                new.add(j + 1)
+            if optional:
+                new.add(j)
+        states = new
+        if not states:
+            return False
+    return len(gl) in states
 
 
 def run(case, ctx):
@@ -243,7 +254,6 @@ def run(case, ctx):
         for (c, p, on, d, v) in oo["notes"]:
             got.setdefault((c, p), []).append((on, on + d, v))
         exp = {}
-        collapsed_keys = set()
         for k in g:
             opened = {}
             for e in case["tracks"][k]:
@@ -253,23 +263,19 @@ def run(case, ctx):
                     on, v = opened.pop((e[2], e[3]))
                     A, B = near(on), near(e[0])
                     if max(B) <= min(A):
-                        collapsed_keys.add((e[2], e[3]))       # zero length after rounding: contributes nothing
+                        LOG.n("c13.note_collapsing_to_zero_length")   # zero length after rounding: contributes nothing
+                        exp.setdefault((e[2], e[3]), [])
                         continue
-                    if min(B) <= max(A):
-                        collapsed_keys.add((e[2], e[3]))       # tie-dependent: may or may not collapse
-                    exp.setdefault((e[2], e[3]), []).append((A, B, v))
+                    exp.setdefault((e[2], e[3]), []).append((A, B, v, min(B) <= max(A)))   # tie-dependent: may collapse
         bad = []
         for key in set(exp) | set(got):
             el = sorted(exp.get(key, []), key=lambda x: x[0])
             gl = sorted(got.get(key, []))
-            ok = len(el) == len(gl) and all(a in A and b in B and v == ve for (A, B, ve), (a, b, v) in zip(el, gl))
             LOG.n("c13.notes_position_checked", len(el))
-            if not ok:
-                bad.append((key, [(tuple(A), tuple(B), v) for A, B, v in el][:3], gl[:3]))
+            if not _match(el, gl):
+                bad.append((key, [(tuple(A), tuple(B), v, opt) for A, B, v, opt in el][:4], gl[:4]))
         if bad or oo["problems"]:
-            only = bool(bad) and all(k in collapsed_keys for k, _, _ in bad) or (not bad and bool(collapsed_keys))
-            fails.append(fail("group_notes", None, w={"group": gi, "tracks": g, "tpb": tpb, "mismatch": bad[:2], "problems": oo["problems"][:2],
-                                                      "only_keys_with_collapsed_note": only}))
+            fails.append(fail("group_notes", None, w={"group": gi, "tracks": g, "tpb": tpb, "mismatch": bad[:2], "problems": oo["problems"][:2]}))
         sigs = [e for e in oo["non"] if e[1] in (orc.TS, orc.KS)]
         if gi != target and sigs:
             fails.append(fail("signature_outside_meta_sequence", (gi, sigs[:2])))
